@@ -35,6 +35,14 @@ func datumTransform(source, dest *datum, x, y, z float64) (float64, float64, flo
 
 	var dst_a = dest.a
 	var dst_es = dest.es
+	// Leave both datums as they were found on every return path, the error
+	// returns included: they are shared with other transformers.
+	defer func() {
+		source.a = src_a
+		source.es = src_es
+		dest.a = dst_a
+		dest.es = dst_es
+	}()
 
 	var fallback = source.datum_type
 	// If this datum requires grid shifts, then apply it to geodetic coordinates.
@@ -101,11 +109,6 @@ func datumTransform(source, dest *datum, x, y, z float64) (float64, float64, flo
 		//this.apply_gridshift(dest, 1, x, y, z)
 		// CHECK_RETURN;
 	}
-
-	source.a = src_a
-	source.es = src_es
-	dest.a = dst_a
-	dest.es = dst_es
 
 	return x, y, z, nil
 }
